@@ -3,6 +3,8 @@ package main
 // Forward symbolic execution of go/ssa functions into named proof obligations.
 
 import (
+	"os"
+	"runtime/debug"
 	"fmt"
 	"regexp"
 	"go/token"
@@ -619,6 +621,9 @@ func (e *Engine) VerifyFunction(fn *ssa.Function, con *Contract) (obls []*Obliga
 	defer func() {
 		if r := recover(); r != nil {
 			errs = append(x.errs, fmt.Sprintf("internal error in %s: %v", fn.String(), r))
+			if os.Getenv("GOVC_DEBUG") != "" {
+				fmt.Fprintf(os.Stderr, "%s\n", debug.Stack())
+			}
 			obls = nil
 		}
 	}()
@@ -1270,7 +1275,21 @@ func (x *FnExec) havocLoop(h *ssa.BasicBlock, st *State, ls *LoopSpec, pre *Stat
 	}
 	if ls.ModGiven {
 		// only the listed locations change: H' = H with stores of fresh values
-		env := x.loopEnv(h, pre, func(p *ssa.Phi) Val { return Val{} })
+		// names of loop-carried variables denote their value on entry to the loop
+		env := x.loopEnv(h, pre, func(p *ssa.Phi) Val {
+			body := x.loopBlocks(h)
+			for i, pred := range h.Preds {
+				if !body[pred] {
+					if v, ok := x.vals[p.Edges[i]]; ok {
+						return v
+					}
+					if c, ok := p.Edges[i].(*ssa.Const); ok {
+						return x.constVal(c)
+					}
+				}
+			}
+			return Val{}
+		})
 		for _, m := range ls.Modifies {
 			x.havocLoc(env, st, m)
 		}
